@@ -75,7 +75,15 @@ fn base_cfg(pattern: &str, i: usize, seed: u64, real: bool) -> HsCfg {
         fixed_e: false,
         prologue: match i % 3 {
             0 => None,
-            1 => { let n = r.below(70); Some(r.bytes(n)) },
+            1 => {
+                let n = match r.below(12) {
+                    0 => [55usize, 56, 63, 64, 65, 119, 127, 128, 129][r.below(9)],
+                    1 => 200 + r.below(2000),
+                    2 if i % 8 == 1 => [65535usize, 65536, 65700, 131_075][r.below(4)],
+                    _ => r.below(70),
+                };
+                Some(r.bytes(n))
+            },
             _ => Some(vec![]),
         },
         payload_lens: (0..nm).map(|_| lens[r.below(lens.len())]).collect(),
@@ -84,6 +92,9 @@ fn base_cfg(pattern: &str, i: usize, seed: u64, real: bool) -> HsCfg {
         transport_msgs: 4,
         query_each_step: false,
         wrong_rs: false,
+        // psks through the builder, through set_psk after build (both / one side), an extra unused psk slot
+        psk_via: [0u8, 1, 0, 2, 0, 3, 1][(i / 2 + (seed as usize % 5)) % 7],
+        extra_psk: (i + (seed as usize % 3)) % 4 == 1,
         seed: r.next(),
     }
 }
@@ -342,7 +353,13 @@ fn gen_mismatch(run: &mut Run, seed: u64, thorough: bool) {
                 if cfg.psks.is_empty() && rep % 2 == 0 && pi % 2 == 0 {
                     cfg.psks = vec![0];
                 }
-                for kind in 0..7 {
+                for kind in 0..9 {
+                    // prologues of structurally interesting lengths (hash block boundaries, the 65535-byte message
+                    // limit and multiples of it: a prologue is the one hashed input that may exceed it): every pattern
+                    // with the short ones, a rotating eighth of the patterns with the long ones
+                    if kind == 8 && !(thorough || (pi + seed as usize) % 8 == usize::from(real)) {
+                        continue;
+                    }
                     let mut sc = Sc::new();
                     if run_mismatch(&cfg, kind, None, &mut sc, &mut r) {
                         run.add("hs", format!("C08 mismatch kind {kind} {}", cfg.name()), sc);
@@ -461,6 +478,28 @@ fn run_mismatch(cfg: &HsCfg, kind: usize, slot: Option<usize>, sc: &mut Sc, r: &
                 return false;
             }
             "psk replaced by set_psk on one side"
+        },
+        7 | 8 => {
+            // prologues of a structurally interesting length that differ in one byte (first / middle / last), or one
+            // is the other cut short by a few bytes at the end
+            let lens: &[usize] = if kind == 7 { &[1, 31, 32, 55, 56, 63, 64, 65, 119, 127, 128, 129, 1000] } else { &[65535, 65536, 65635, 131_070, 131_077] };
+            let n = lens[r.below(lens.len())];
+            let base = r.bytes(n);
+            let mut other = base.clone();
+            match r.below(4) {
+                0 => other[0] ^= 1 << r.below(8),
+                1 => other[n / 2] ^= 1 << r.below(8),
+                2 => other[n - 1] ^= 1 << r.below(8),
+                _ => { let cut = 1 + r.below(n.min(40)); other.truncate(n - cut); },
+            }
+            if r.chance(1, 2) {
+                spec_i.prologue = Some(base);
+                spec_r.prologue = Some(other);
+            } else {
+                spec_i.prologue = Some(other);
+                spec_r.prologue = Some(base);
+            }
+            if kind == 7 { "prologue of boundary length, one byte / the tail" } else { "long prologue (> 65535 bytes), one byte / the tail" }
         },
         _ => {
             // same pattern, different hash of equal digest length (a different protocol name)
